@@ -125,11 +125,11 @@ def to_hashable(data: Any) -> Any:
     if isinstance(data, bool):
         return bool, data  # True == 1 but they are different JSON values
     elif isinstance(data, list):
-        return tuple(map(to_hashable, data))
+        return list, tuple(map(to_hashable, data))  # [] and {} are different JSON values
     elif isinstance(data, dict):
         # keys can be of mixed types when data doesn't come from JSON
         sorted_keys = sorted(data, key=lambda k: (k.__class__.__name__, repr(k)))
-        return tuple(sorted_keys + [to_hashable(data[k]) for k in sorted_keys])
+        return dict, tuple(sorted_keys + [to_hashable(data[k]) for k in sorted_keys])
     else:
         return data
 
